@@ -373,9 +373,9 @@ class Pedigree(Optimality):
                 out.append(trio(2, [(2, (0, 1)), (2, (0, 1))], allhet, W=15, Rc=15, part=[k, 3]))
                 out.append(trio(2, [(0, (0, 1)), (2, (0, 1))], [[H, H], [(0, 0), H], [H, H]], W=15, Rc=15, part=[k, 3]))
             out.append(trio(2, [(2, (0, 1))], [[(0, 0), H], [H, (1, 1)], [H, H]], W=15, Rc=15))
-            # 4 columns: k = floor(sqrt(4)) = 2, columns are dropped in the forward pass and recomputed in the backtrace,
-            # with a different symbolic recombination cost per column
-            out.append(trio(4, [(2, (0, 1, 2, 3))], [[H] * 4, [H] * 4, [H] * 4], W=15, Rc=15))
+            # (4-column trios - k = floor(sqrt(4)) = 2: columns dropped in the forward pass and recomputed in the backtrace,
+            #  with a different symbolic recombination cost per column - are in the thorough tier: their optimality
+            #  queries take between 20 s and 10 min depending on z3's search order)
 
             # Mendelian conflict in column 1: father 0/0, mother 0/0, child 0/1
             out.append(trio(2, [(2, (0, 1))], [[H, (0, 0)], [H, (0, 0)], [H, H]], W=15, Rc=15))
